@@ -632,6 +632,52 @@ class X86Model(object):
         val = a_.get(afs.imm) if isinstance(a_, dict) else None
         return ('ok', pos[0] - (1 if sib else 0), val)
 
+    def get_afs_on_tables(self, mode_name):
+        """get_afs evaluated from its source on the ModRM tables init_pre_modrm builds (evaluated statically), for every ModRM byte under one addressing mode and two
+        SIB bytes: yields (m, sib byte or None, bytes consumed, returned operand dict or 'raises:<Exc>', table entry)."""
+        import struct as _struct
+        from .consteval import Native, PyRaise, class_obj
+        from . import simpeval as SE
+        afs, arch = self.afs, self.arch
+        T = self.modrm_tables()
+        tname = {'u32': 'db_afs', 'u16': 'db_afs_16', 'mm': 'db_afs_mm', 'xmm': 'db_afs_xmm'}[mode_name]
+        table = T[tname]
+        ga = arch.method('x86allmncs', 'get_afs')
+        st = Obj('struct')
+        st.unpack = Native(_struct.unpack)
+        scope = dict((k, v) for k, v in self.env.items() if isinstance(v, (str, int, bool, list, tuple, dict)) or v is None)
+        scope.update(SE.INT_CLASSES)
+        scope.update({'x86_afs': afs, 'struct': st})
+        me = class_obj(arch, 'x86allmncs', 'self')
+        for k_ in ('db_afs', 'db_afs_16', 'db_afs_mm', 'db_afs_xmm'):
+            setattr(me, k_, T[k_])
+        for m in range(256):
+            entry = table[m]
+            for sib in ((0x24, 0xA5) if isinstance(entry, list) else (None,)):
+                data = bytes([0x24 if sib is None else sib, 0xF0, 0xDE, 0xBC, 0x9A, 0x78])
+                if sib is None:
+                    data = data[1:]
+                pos = [0]
+
+                def readbs(k=1, _d=data, _p=pos):
+                    if _p[0] + k > len(_d):
+                        raise PyRaise('read past the test buffer', 'IOError')
+                    r = _d[_p[0]:_p[0] + k]
+                    _p[0] += k
+                    return r
+                b_ = Obj('bin')
+                b_.readbs = Native(readbs)
+                try:
+                    out = Evaluator(scope).call_user(ga, [me, b_, m, getattr(afs, mode_name)])
+                    got = out[1] if isinstance(out, tuple) and len(out) == 2 else out
+                except PyRaise as e:
+                    got = 'raises:%s' % e.exc_name
+                except NotConst as e:
+                    raise AnalysisError('x86allmncs.get_afs is outside the evaluable subset (ModRM %02X, %s): %s' % (m, mode_name, e))
+                except (KeyError, TypeError, IndexError) as e:
+                    got = 'raises:%s' % type(e).__name__
+                yield m, sib, pos[0], got, (entry[sib] if sib is not None else entry)
+
     def im_fmt_table(self):
         """get_im_fmt evaluated from its source on se x w8 x mode x {imm, ims}: {(se, w8, mode, kind): (size, fmt, type) | 'raises:<Exc>'}."""
         if getattr(self, '_im_fmt', None) is None:
